@@ -77,11 +77,29 @@ func (w *World) builtinClosure(name string) []*ssa.Function {
 	}
 	seen := map[*ssa.Function]bool{}
 	var out []*ssa.Function
-	for _, impl := range b.impls() {
-		for g := range staticReach(impl, func(x *ssa.Function) bool { return fnPkgKey(x) == "exec" }) {
+	add := func(root *ssa.Function) {
+		for g := range staticReach(root, func(x *ssa.Function) bool { return fnPkgKey(x) == "exec" }) {
 			if !seen[g] {
 				seen[g] = true
 				out = append(out, g)
+			}
+		}
+	}
+	for _, impl := range b.impls() {
+		add(impl)
+	}
+	// functions the implementation was specialised with (a closure built by a factory): bound to its free variables
+	for ar := range b.Fns {
+		for _, v := range w.Facts().BuiltinBind[fmt.Sprintf("%s#%d", name, ar)] {
+			switch x := stripConv(v).(type) {
+			case *ssa.Function:
+				if fnPkgKey(x) == "exec" {
+					add(x)
+				}
+			case *ssa.MakeClosure:
+				if g, ok := x.Fn.(*ssa.Function); ok && fnPkgKey(g) == "exec" {
+					add(g)
+				}
 			}
 		}
 	}
@@ -119,29 +137,41 @@ func checkC07(w *World) {
 		for ar, impl := range b.Fns {
 			ok := false
 			detail := "no Number result found"
-			allInstrs(impl, func(in ssa.Instruction) {
-				ret, isRet := in.(*ssa.Return)
-				if !isRet || len(ret.Results) != 2 || !isNilConst(ret.Results[1]) {
-					return
+			// the implementation, or the function it was specialised with (`onArgumentString(stringLength)`)
+			scan := []*ssa.Function{impl}
+			for _, v := range f.BuiltinBind[fmt.Sprintf("string-length#%d", ar)] {
+				if g, isFn := stripConv(v).(*ssa.Function); isFn && fnPkgKey(g) == "exec" {
+					scan = append(scan, g)
 				}
-				v := stripConvAll(ret.Results[0])
-				c, isCall := v.(*ssa.Call)
-				if !isCall {
-					detail = "returns " + describe(v)
-					return
-				}
-				if sc := staticCallee(c); sc != nil && strings.HasPrefix(funcFullName(sc), "unicode/utf8.RuneCount") {
-					ok, detail = true, "returns "+funcFullName(sc)
-					return
-				}
-				if bi, isB := c.Call.Value.(*ssa.Builtin); isB && bi.Name() == "len" {
-					if isRuneSlice(c.Call.Args[0].Type()) {
-						ok, detail = true, "returns len([]rune)"
-					} else {
-						detail = "returns len of a " + c.Call.Args[0].Type().String() + ": a byte count, not a character count"
+			}
+			for _, sfn := range scan {
+				allInstrs(sfn, func(in ssa.Instruction) {
+					ret, isRet := in.(*ssa.Return)
+					if !isRet || len(ret.Results) == 0 || len(ret.Results) > 2 {
+						return
 					}
-				}
-			})
+					if len(ret.Results) == 2 && !isNilConst(ret.Results[1]) {
+						return
+					}
+					v := stripConvAll(ret.Results[0])
+					c, isCall := v.(*ssa.Call)
+					if !isCall {
+						detail = "returns " + describe(v)
+						return
+					}
+					if sc := staticCallee(c); sc != nil && strings.HasPrefix(funcFullName(sc), "unicode/utf8.RuneCount") {
+						ok, detail = true, "returns "+funcFullName(sc)
+						return
+					}
+					if bi, isB := c.Call.Value.(*ssa.Builtin); isB && bi.Name() == "len" {
+						if isRuneSlice(c.Call.Args[0].Type()) {
+							ok, detail = true, "returns len([]rune)"
+						} else {
+							detail = "returns len of a " + c.Call.Args[0].Type().String() + ": a byte count, not a character count"
+						}
+					}
+				})
+			}
 			w.check(P, "R07.1", fmt.Sprintf("string-length/%d result unit", ar), impl.Pos(), ok, detail)
 		}
 	}
